@@ -233,6 +233,10 @@ func runAddIndex(c *Ctx) {
 		c.Undecided("addIndex paths", fn.Pos(), "too many paths")
 		return
 	}
+	if len(fn.Params) != 4 {
+		c.Undecided("addIndex signature", fn.Pos(), "addIndex no longer takes (pk, name, columns): the decision table of this rule (which index name becomes Schema.PrimaryKey) has nothing to read")
+		return
+	}
 	recv, pk, name, cols := "p:"+fn.Params[0].Name(), "p:"+fn.Params[1].Name(), "p:"+fn.Params[2].Name(), "p:"+fn.Params[3].Name()
 	for _, lp := range paths {
 		if lp.Exit == nil {
@@ -375,6 +379,14 @@ func runSameKey(c *Ctx, addIndex *ssa.Function) {
 				took = e.Args[0]
 			}
 		}
+		// what setPK answers (when it answers): "took an earlier index over" — the automatic-index counter depends on it
+		if len(lp.Exit.Results) == 1 {
+			if b, isC := constBool(lp.PS.Resolve(lp.Exit.Results[0])); isC {
+				c.Check(b == (took != ""), "setPK answer:"+pathSig(lp, 99), lp.Exit.Pos(), "setPK answers true exactly when the key took over the index of an earlier equivalent constraint (took over: %v, answers %v)", took != "", b)
+			} else {
+				c.Undecided("setPK answer:"+pathSig(lp, 99), lp.Exit.Pos(), "setPK's answer is not a constant on this path")
+			}
+		}
 		if took == "" {
 			continue
 		}
@@ -389,6 +401,17 @@ func runSameKey(c *Ctx, addIndex *ssa.Function) {
 	if nTake == 0 {
 		c.Fail("setPK take-over", setPK.Pos(), "setPK never finds an earlier equivalent constraint")
 	}
+}
+
+// sameGen: two terms carry the same generation suffix (they were computed in the same loop iteration).
+func sameGen(a, b string) bool {
+	suffix := func(s string) string {
+		if i := strings.LastIndex(s, "~"); i >= 0 {
+			return s[i:]
+		}
+		return ""
+	}
+	return suffix(a) == suffix(b)
 }
 
 func stripMakeInterface(v ssa.Value) ssa.Value {
@@ -539,6 +562,44 @@ func runPKCols(c *Ctx) {
 			c.Fail("pkColumns:"+pathSig(lp, 99), fn.Pos(), "a primary-key column is passed over without recording a position; path [%s]", pathDesc(lp))
 			continue
 		}
+		if newProver(p, t, lp).g.inconsistent() {
+			continue // e.g. "found at a negative position"
+		}
+		// did the search over the index columns end on a match, and at which position?
+		matched, matchIdx := false, ""
+		{
+			var lastEF *Event
+			for i := range lp.Events {
+				e := &lp.Events[i]
+				if e.Kind == "call" && e.Name == "strings.EqualFold" && len(e.Args) == 2 && strings.HasSuffix(gen(e.Args[0])+gen(e.Args[1]), ".Column") {
+					lastEF = e
+				}
+			}
+			if lastEF != nil {
+				efT := t.Term(lastEF.Instr.(ssa.Value), lp.PS)
+				okName := lp.Has(efT, token.EQL, "true", true)
+				okColl := false
+				for i := range lp.Events {
+					e := &lp.Events[i]
+					if e.Kind == "call" && e.Name == "sqlittle.sameCollation" && e.Instr.Pos() > lastEF.Instr.Pos() || (e.Kind == "call" && e.Name == "sqlittle.sameCollation" && sameGen(t.Term(e.Instr.(ssa.Value), lp.PS), efT)) {
+						okColl = lp.Has(t.Term(e.Instr.(ssa.Value), lp.PS), token.EQL, "true", true)
+					}
+				}
+				matched = okName && okColl
+				for _, a := range lastEF.Args {
+					if i := strings.Index(a, ".Columns["); i >= 0 && strings.HasSuffix(a, "].Column") {
+						matchIdx = a[i+len(".Columns[") : len(a)-len("].Column")]
+					}
+				}
+			}
+		}
+		if colsAppend && matched {
+			c.Fail("pkColumns found", fn.Pos(), "the key column was found in the index (at position %s) and is appended all the same: a key column that is the index's first column, say, would be stored twice; path [%s]", matchIdx, pathDesc(lp))
+			continue
+		}
+		if !colsAppend {
+			c.Check(matched && gen(pos) == gen(matchIdx), "pkColumns found", fn.Pos(), "a key column that the index already has is found at the position of the matching index column (matched=%v at %s, recorded %s)", matched, matchIdx, pos)
+		}
 		if colsAppend {
 			nAppend++
 			isPK := false
@@ -676,6 +737,34 @@ func runSQLPass(c *Ctx) {
 			}
 		}
 		c.Check(ok1 && ok2, "makeColumnDef name/type", fn.Pos(), "a column definition keeps the name and type that were written")
+		// … and the collation name of its COLLATE constraint, unchanged
+		nColl, okColl := 0, true
+		for _, in := range instrs(fn) {
+			if s, ok := in.(*ssa.Store); ok && fieldName(s.Addr) == "Collate" {
+				nColl++
+				v := s.Val
+				for {
+					if cv, ok := v.(*ssa.ChangeType); ok {
+						v = cv.X
+					} else if cv, ok := v.(*ssa.Convert); ok {
+						v = cv.X
+					} else {
+						break
+					}
+				}
+				ta := false
+				switch x := v.(type) {
+				case *ssa.TypeAssert:
+					ta = true
+				case *ssa.Extract:
+					_, ta = x.Tuple.(*ssa.TypeAssert)
+				}
+				if !ta {
+					okColl = false
+				}
+			}
+		}
+		c.Check(nColl >= 1 && okColl, "makeColumnDef collate", fn.Pos(), "the COLLATE constraint's name is recorded as written (not passed through a function that could turn an explicit BINARY into `none`)")
 	}
 }
 
